@@ -405,7 +405,10 @@ def gen_history(rng, profile, faults=False, sweep=False, hostile=False, reuse=Fa
             elif g.get("forced") and rng.random() < 0.8:
                 text, info = g["forced"], {"bomb": False, "out": ["X"], "src": "typed-seed"}
             elif damaged and g["dw"] and rng.random() < 0.7:
-                text = rng.choice(REUSE_PROGRAMS + ["entry parent offset", "entry child parent offset",
+                text = rng.choice(["entry attribute value", "entry attribute value", "entry attribute \"%s\"", "entry attribute value \"%s\"",
+                               "entry @AT_decl_file", "entry @AT_type !TAG_base_type abbrev code", "entry \"%s\"",
+                               "unit entry attribute cooked value", "entry raw attribute value"]) if rng.random() < 0.3 else \
+                rng.choice(REUSE_PROGRAMS + ["entry parent offset", "entry child parent offset",
                                                     "unit root child parent offset", "entry root offset"]
                               # DIEs behind the damaged spot, reached by reference rather than by walking
                               + ["entry @AT_type parent offset", "entry @AT_type parent", "entry @AT_sibling parent offset",
@@ -437,12 +440,26 @@ def gen_history(rng, profile, faults=False, sweep=False, hostile=False, reuse=Fa
             text, _ = choose_program(rng, [], False)
         decoys.append(b.prog(text, 2 if "\x00" in text else rng.choice([0, 1, 2])))
 
+    # twins: the text of a real query (or a splice-bearing one) with a NUL and
+    # junk inside; compiled after the original, in length mode
+    twins = []
+    if not sweep and rng.random() < 0.15:
+        base = rng.choice([b.plan["progs"][p_]["text"] for (_, p_, _, _) in queries]
+                          + ['"%( 1 %)"', '"a%( 1 2 add %)b"', '"%s"', '(1, 2) "%( 3 %)"', '"%( "%( 1 %)" %)"', '[1, 2] elem "<%( dup %)>"'])
+        if "\x00" not in base and len(base) < 400:
+            first = b.prog(base, rng.choice([0, 1, 2]))
+            twins = [first] + [b.prog(gen.nul_twin(rng, base), rng.choice([1, 2])) for _ in range(rng.choice([1, 2]))]
+            plan["knobs"]["check_parse"] = 1
+
     # vocabularies: most queries use the harness's prebuilt core+dwarf one; in
     # some runs the plan builds its own through the API, in both orders, plus
     # a core-only one, and compiles against those
     vocs = {}
     if not sweep and not hostile and rng.random() < 0.1:
         kinds = [("core", "dw"), ("dw", "core"), ("core",), ("core", "dw")]
+        if rng.random() < 0.3:
+            # an add that is refused (a part twice): the vocabulary stays what it was, and is used
+            kinds = [("core", "core", "dw"), ("core", "dw", "core"), ("core", "dw", "dw"), ("dw", "dw", "core"), ("core", "core")]
         for vi in range(rng.choice([1, 2, 3])):
             vocs[vi] = rng.choice(kinds) if vi > 0 else rng.choice(kinds[:2])
             b.setup.append(P.step(0, "VOC", vi, *vocs[vi]))
@@ -489,6 +506,13 @@ def gen_history(rng, profile, faults=False, sweep=False, hostile=False, reuse=Fa
     if cur:
         blocks.append(cur)
     rng.shuffle(blocks)
+    if twins:
+        # original first, its twins right after or at the very end of the compiles
+        tb = [parse_step(0, b.q(), t_) for t_ in twins]
+        if rng.random() < 0.5:
+            blocks.append(tb)
+        else:
+            blocks.insert(rng.randint(0, len(blocks)), tb)
     late = []
     for blk in blocks:
         # some compiles happen in the middle of the history instead
@@ -569,8 +593,9 @@ def gen_history(rng, profile, faults=False, sweep=False, hostile=False, reuse=Fa
                                                "Y": ["name", "label", "address", "size", "binding", "visibility", "\"%s\""],
                                                "U": ["root", "entry offset", "offset", "version", "abbrev entry", "\"%s\""]}[top]), {"out": ["X"]}
                 elif top == "E" and rng.random() < 0.4:
-                    text2, info2 = rng.choice(["root offset", "parent offset", "root", "parent", "root \"%s\"", "?root offset",
-                                               "parent ?root offset", "parent \"%s\"", "root child offset", "dup root (== )" if False else "root label"]), {"out": ["X"]}
+                    text2, info2 = rng.choice(E_FOLLOWUPS), {"out": ["X"]}
+                elif top in ("Q", "QS", "QQ", "QX") and rng.random() < 0.5:
+                    text2, info2 = rng.choice(Q_FOLLOWUPS), {"out": ["X"]}
                 elif top == "D" and rng.random() < 0.4:
                     text2, info2 = rng.choice(["unit offset", "entry offset", "[unit] length", "[unit entry] length", "unit root offset",
                                                "raw unit offset", "cooked unit offset", "entry ?root offset"]), {"out": ["X"]}
@@ -608,6 +633,21 @@ def gen_history(rng, profile, faults=False, sweep=False, hostile=False, reuse=Fa
                 elif rng.random() < 0.5:
                     extra.append(P.step(c, "RENDER", kept))
                 st2, _ = task_steps(b, c, q2, i2, pull_pattern(rng))
+                if not early_drop and top in ("E", "Q", "QS", "QQ", "QX", "A", "U", "D") and rng.random() < 0.5:
+                    # the same kept value once more, through another query (or
+                    # the same one again): whatever the first use filled in or
+                    # changed in the value must not show in the second
+                    text3 = rng.choice(E_FOLLOWUPS if top == "E" else Q_FOLLOWUPS if top.startswith("Q") else
+                                       ["offset", "\"%s\"", "label", "dup", "type"]) if rng.random() < 0.7 else text2
+                    q3, i3 = b.q(), b.i()
+                    st3 = [parse_step(c, q3, b.prog(text3, 0), g), P.step(c, "MKIN", i3, "O:%d:%d" % (kept, depth))]
+                    s3, _ = task_steps(b, c, q3, i3, pull_pattern(rng))
+                    if rng.random() < 0.5:
+                        st2 = st2 + st3 + s3
+                    else:
+                        # both alive at once
+                        st2 = st3 + [s3[0]] + st2 + s3[1:]
+                    queries.append((q3, b.plan["progs"].index({"text": text3, "mode": 0}), None, {"out": ["X"]}))
                 if early_drop and rng.random() < 0.6:
                     # the input stack goes as soon as the execution has started:
                     # the result set has its own copy
@@ -776,6 +816,12 @@ def add_storm(rng, b, parse_step, nclients):
     b.plan["knobs"]["storm"] = n
 
 
+E_FOLLOWUPS = ["root offset", "parent offset", "root", "parent", "root \"%s\"", "?root offset", "parent ?root offset", "parent \"%s\"",
+               "root child offset", "root label", "raw parent offset", "cooked parent offset", "raw root offset", "raw parent",
+               "raw parent parent offset", "cooked parent raw parent offset", "raw child offset", "cooked child offset", "raw attribute label",
+               "cooked attribute label", "raw \"%s\"", "raw parent \"%s\""]
+Q_FOLLOWUPS = ["elem [9] add", "[9] add", "elem", "dup elem [1] add", "relem", "elem elem", "elem \"x\" add", "elem 1 add", "length",
+               "dup [7] add swap length", "[elem] length", "elem [9] add length", "(|S| S elem [S length] add)", "relem [0] add"]
 REUSE_PROGRAMS = ["entry ?root offset", "entry root offset", "entry parent offset", "entry ?(parent) root offset",
                   "unit root offset", "entry !root parent ?root offset", "entry (|E| E root (== E)) offset",
                   "[entry ?root] length", "entry child parent offset", "entry ?root name",
